@@ -15,19 +15,20 @@ import (
 
 // Ctx is shared by all rules of one run.
 type Ctx struct {
-	P              *prog.Program
-	Tier           string
-	Notes          []string // informational lines for the evidence
-	reach          map[string]*prog.Reach
-	dyn            *dynTyper
-	Stats          map[string]int
-	tabd           *tabData
-	immE           *immEngine
-	joinCache      map[*ssa.Function]bool
-	unsortedResult map[*ssa.Function]bool
-	retRangeCache  map[*ssa.Function][]retRange
-	VerifDir       string
-	Seed           int
+	P                 *prog.Program
+	Tier              string
+	Notes             []string // informational lines for the evidence
+	reach             map[string]*prog.Reach
+	dyn               *dynTyper
+	Stats             map[string]int
+	tabd              *tabData
+	immE              *immEngine
+	joinCache         map[*ssa.Function]bool
+	unsortedResult    map[*ssa.Function]bool
+	retRangeCache     map[*ssa.Function][]retRange
+	mutableDuringWalk map[string]bool
+	VerifDir          string
+	Seed              int
 }
 
 func NewCtx(p *prog.Program, tier string) *Ctx {
